@@ -5,6 +5,9 @@ package goja
 // Contracts for property C05 (canonical Number representation, conversions).
 // Syntax: see /verif/DESIGN.md section 4. Checked by /verif/bin/gvc.
 
+//@ createinv valueFloat specCanon
+//@ createinv valueInt specCanon
+
 //@ axiom forall i int :: 0 <= i && i < 256 ==> intCache[i] == Value(valueInt(i-256)) [intCache]
 //@ axiom specFloatValueIs(_negativeZero, math.Copysign(0, -1)) [negzero]
 //@ axiom specIsNaNValue(_NaN) [nan]
